@@ -168,6 +168,22 @@ func (sc scen) harness() func() *sched.Harness {
 								time.Sleep(dd)
 								continue
 							}
+							if a == "noop" {
+								// calls that succeed without changing anything (and without writing the file): a put of
+								// the value already stored, an activate of the active version, a delete of an absent name
+								same := "initial"
+								if n > 0 {
+									same = fmt.Sprintf("value-%d", n)
+								}
+								if _, err := d.Put(hx.Super(), "a", []byte(same)); err != nil {
+									x.Fail("harness: re-put: %v", err)
+								}
+								d.Delete(hx.Super(), "never-existed")
+								if in, err := d.Info(hx.Super(), "a"); err == nil {
+									d.Activate(hx.Super(), "a", in.ActiveVersion)
+								}
+								continue
+							}
 							n++
 							if a == "delbig" {
 								// a write that makes the file shorter than the one uploaded before
@@ -310,6 +326,8 @@ func TestCheck(t *testing.T) {
 		{name: "idle database opened from an existing file (server restart)", reopen: true, horizon: 200 * time.Second},
 		{name: "file shrinks between uploads (large secret deleted at 30s, put at 100s)", writer: []string{"sleep:30s", "delbig", "sleep:70s", "put"}, big: true, horizon: 400 * time.Second},
 		{name: "first upload in flight for 90s, then an idle database", slowFirst: 90 * time.Second, horizon: 400 * time.Second},
+		{name: "calls that change nothing at 90s (re-put of the stored value, activate of the active version, delete of an absent name)", writer: []string{"sleep:90s", "noop"}, horizon: 400 * time.Second},
+		{name: "one write at 30s, calls that change nothing at 100s", writer: []string{"sleep:30s", "put", "sleep:70s", "noop"}, horizon: 460 * time.Second},
 		{name: "first upload never answered (ends at its own deadline), then an idle database", stallNth: 1, horizon: 640 * time.Second},
 		{name: "second upload never answered, one write at 30s", writer: []string{"sleep:30s", "put"}, stallNth: 2, horizon: 720 * time.Second},
 		{name: "first upload in flight for 90s, writes at 30s and 100s", writer: []string{"sleep:30s", "put", "sleep:70s", "put"}, slowFirst: 90 * time.Second, horizon: 520 * time.Second},
